@@ -42,7 +42,21 @@ fn render_main(cases: &[&CaseCode]) -> (String, Vec<(usize, usize, usize)>) {
     src.push_str(
         r#"#![allow(warnings)]
 use std::io::BufRead;
+/// both entry points of serde_json must agree: from the text and from an already parsed `Value`
+fn via_value<T: serde::de::DeserializeOwned>(input: &str) -> Result<T, String> {
+    let v: serde_json::Value = serde_json::from_str(input).map_err(|e| e.to_string())?;
+    serde_json::from_value::<T>(v).map_err(|e| e.to_string())
+}
 fn de<T: serde::de::DeserializeOwned + serde::Serialize>(input: &str) -> String {
+    let second = via_value::<T>(input).map(|v| serde_json::to_string(&v).unwrap_or_default());
+    let first = de_text::<T>(input);
+    match (&second, first.strip_prefix("ok ")) {
+        (Ok(s), Some(t)) if s == t => first,
+        (Err(_), None) => first,
+        _ => format!("err from_str and from_value disagree: {} / {:?}", first, second),
+    }
+}
+fn de_text<T: serde::de::DeserializeOwned + serde::Serialize>(input: &str) -> String {
     match serde_json::from_str::<T>(input) {
         Ok(v) => match serde_json::to_string(&v) {
             Ok(s) => format!("ok {}", s),
